@@ -76,15 +76,26 @@ fn is_simple(p: &Pat) -> bool {
     matches!(p, Pat::PVar { .. })
 }
 
-fn walk(e: &Expr, out: &mut Vec<Site>) {
+/// shape of a binding construct, used to align the TAST walk with the AST walk
+#[derive(Clone, PartialEq, Debug)]
+enum Shape {
+    Match(usize),
+    Let,
+}
+
+type Anchors = Vec<(Shape, Option<Site>)>;
+
+fn walk(e: &Expr, out: &mut Anchors) {
     match e {
         Expr::EVar { .. } | Expr::EPrim { .. } => {}
         Expr::EConstr { args, .. } => args.iter().for_each(|x| walk(x, out)),
         Expr::ETuple { items, .. } | Expr::EArray { items, .. } => items.iter().for_each(|x| walk(x, out)),
         Expr::EClosure { body, .. } => walk(body, out),
         Expr::ELet { pat, value, .. } => {
+            // `let x = e` is not a site, and the typer introduces such lets itself (initialisers of a
+            // struct literal written out of order), so they do not take part in the alignment
             if !is_simple(pat) {
-                out.push(Site::LetAlone { pat: pat.clone() });
+                out.push((Shape::Let, Some(Site::LetAlone { pat: pat.clone() })));
             }
             walk(value, out);
         }
@@ -93,7 +104,7 @@ fn walk(e: &Expr, out: &mut Vec<Site>) {
                 match x {
                     Expr::ELet { pat, value, .. } if i + 1 < exprs.len() => {
                         if !is_simple(pat) {
-                            out.push(Site::LetBlock { pat: pat.clone() });
+                            out.push((Shape::Let, Some(Site::LetBlock { pat: pat.clone() })));
                         }
                         walk(value, out);
                     }
@@ -106,7 +117,10 @@ fn walk(e: &Expr, out: &mut Vec<Site>) {
                 Expr::EVar { name, .. } => Some(name.clone()),
                 _ => None,
             };
-            out.push(Site::Match { var, scrut_ty: expr.get_ty(), arms: arms.iter().map(|a| a.pat.clone()).collect() });
+            out.push((
+                Shape::Match(arms.len()),
+                Some(Site::Match { var, scrut_ty: expr.get_ty(), arms: arms.iter().map(|a| a.pat.clone()).collect() }),
+            ));
             walk(expr, out);
             arms.iter().for_each(|a| walk(&a.body, out));
         }
@@ -136,13 +150,126 @@ fn walk(e: &Expr, out: &mut Vec<Site>) {
     }
 }
 
-pub fn sites_of(file: &tast::File) -> Vec<Site> {
+/// binding constructs per function of the typed AST, in source order; key = function name, or
+/// `impl#k#method` for the k-th impl block
+fn anchors_of(file: &tast::File) -> Vec<(String, Anchors)> {
     let mut out = Vec::new();
+    let mut k = 0;
     for item in &file.toplevels {
         match item {
-            tast::Item::Fn(f) => walk(&f.body, &mut out),
-            tast::Item::ImplBlock(b) => b.methods.iter().for_each(|m| walk(&m.body, &mut out)),
+            tast::Item::Fn(f) => {
+                let mut a = Vec::new();
+                walk(&f.body, &mut a);
+                out.push((f.name.clone(), a));
+            }
+            tast::Item::ImplBlock(b) => {
+                for m in &b.methods {
+                    let mut a = Vec::new();
+                    walk(&m.body, &mut a);
+                    out.push((format!("impl#{}#{}", k, m.name), a));
+                }
+                k += 1;
+            }
             _ => {}
+        }
+    }
+    out
+}
+
+// ---------------------------------------------------------------- the same walk over the SURFACE syntax
+
+use ::ast::ast as sast;
+
+fn awalk(e: &sast::Expr, out: &mut Vec<(Shape, Vec<sast::Pat>)>) {
+    use sast::Expr as E;
+    match e {
+        E::EPath { .. } | E::EUnit { .. } | E::EBool { .. } | E::EInt { .. } | E::EInt8 { .. } | E::EInt16 { .. }
+        | E::EInt32 { .. } | E::EInt64 { .. } | E::EUInt8 { .. } | E::EUInt16 { .. } | E::EUInt32 { .. } | E::EUInt64 { .. }
+        | E::EFloat { .. } | E::EFloat32 { .. } | E::EFloat64 { .. } | E::EString { .. } => {}
+        E::EConstr { args, .. } => args.iter().for_each(|x| awalk(x, out)),
+        E::EStructLiteral { fields, .. } => fields.iter().for_each(|(_, x)| awalk(x, out)),
+        E::ETuple { items, .. } | E::EArray { items, .. } => items.iter().for_each(|x| awalk(x, out)),
+        E::ELet { pat, value, .. } => {
+            if !matches!(pat, sast::Pat::PVar { .. }) {
+                out.push((Shape::Let, vec![pat.clone()]));
+            }
+            awalk(value, out);
+        }
+        E::EClosure { body, .. } => awalk(body, out),
+        E::EMatch { expr, arms, .. } => {
+            out.push((Shape::Match(arms.len()), arms.iter().map(|a| a.pat.clone()).collect()));
+            awalk(expr, out);
+            arms.iter().for_each(|a| awalk(&a.body, out));
+        }
+        E::EIf { cond, then_branch, else_branch, .. } => {
+            awalk(cond, out);
+            awalk(then_branch, out);
+            awalk(else_branch, out);
+        }
+        E::EWhile { cond, body, .. } => {
+            awalk(cond, out);
+            awalk(body, out);
+        }
+        E::EGo { expr, .. } => awalk(expr, out),
+        E::ECall { func, args, .. } => {
+            awalk(func, out);
+            args.iter().for_each(|x| awalk(x, out));
+        }
+        E::EUnary { expr, .. } => awalk(expr, out),
+        E::EBinary { lhs, rhs, .. } => {
+            awalk(lhs, out);
+            awalk(rhs, out);
+        }
+        E::EProj { tuple, .. } => awalk(tuple, out),
+        E::EField { expr, .. } => awalk(expr, out),
+        E::EBlock { exprs, .. } => exprs.iter().for_each(|x| awalk(x, out)),
+    }
+}
+
+fn src_anchors_of(file: &sast::File) -> BTreeMap<String, Vec<(Shape, Vec<sast::Pat>)>> {
+    let mut out = BTreeMap::new();
+    let mut k = 0;
+    for item in &file.toplevels {
+        match item {
+            sast::Item::Fn(f) => {
+                let mut a = Vec::new();
+                awalk(&f.body, &mut a);
+                out.insert(f.name.0.clone(), a);
+            }
+            sast::Item::ImplBlock(b) => {
+                for m in &b.methods {
+                    let mut a = Vec::new();
+                    awalk(&m.body, &mut a);
+                    out.insert(format!("impl#{}#{}", k, m.name.0), a);
+                }
+                k += 1;
+            }
+            _ => {}
+        }
+    }
+    out
+}
+
+/// the sites of the typed AST, each with the patterns AS WRITTEN when the function's binding
+/// constructs line up one to one with those of the surface syntax
+fn sites_of(file: &tast::File, src_file: Option<&sast::File>) -> Vec<(Site, Option<Vec<sast::Pat>>)> {
+    let srcs = src_file.map(src_anchors_of).unwrap_or_default();
+    let n_impl_t = file.toplevels.iter().filter(|i| matches!(i, tast::Item::ImplBlock(_))).count();
+    let n_impl_s = src_file.map(|f| f.toplevels.iter().filter(|i| matches!(i, sast::Item::ImplBlock(_))).count()).unwrap_or(0);
+    let mut out = Vec::new();
+    for (key, anchors) in anchors_of(file) {
+        let aligned = srcs.get(&key).filter(|sa| {
+            (!key.starts_with("impl#") || n_impl_t == n_impl_s)
+                && sa.len() == anchors.len()
+                && sa.iter().zip(anchors.iter()).all(|(x, y)| x.0 == y.0)
+        });
+        if aligned.is_none() && std::env::var("GV_C06_DEBUG").is_ok() {
+            eprintln!("unaligned {}: tast {:?} / src {:?}", key, anchors.iter().map(|a| a.0.clone()).collect::<Vec<_>>(), srcs.get(&key).map(|sa| sa.iter().map(|a| a.0.clone()).collect::<Vec<_>>()));
+        }
+        for (i, (_, site)) in anchors.into_iter().enumerate() {
+            if let Some(site) = site {
+                out.push((site, aligned.map(|sa| sa[i].1.clone())));
+            }
         }
     }
     out
@@ -281,16 +408,18 @@ struct Out {
     kinds: BTreeMap<String, usize>,
 }
 
-fn emit_program(out: &mut Out, id: &str, tast: &tast::File, genv: &GlobalTypeEnv, src: Option<&str>) {
-    let sites = sites_of(tast);
+fn emit_program(out: &mut Out, id: &str, tast: &tast::File, genv: &GlobalTypeEnv, src: &str, show_src: bool) {
+    // the surface syntax of the same text, from the repository's own parser and lowering
+    let src_file = crate::astdump::parse_lower(std::path::Path::new("main.gom"), src).ok();
+    let sites = sites_of(tast, src_file.as_ref());
     if sites.is_empty() {
         return;
     }
     writeln!(out.text, "{}\tSIG\t{}", id, sig(genv).to_text()).unwrap();
-    if let Some(s) = src {
-        writeln!(out.text, "{}\tSRC\t{}", id, crate::sexp::esc_line(s)).unwrap();
+    if show_src {
+        writeln!(out.text, "{}\tSRC\t{}", id, crate::sexp::esc_line(src)).unwrap();
     }
-    for (k, site) in sites.iter().enumerate() {
+    for (k, (site, written)) in sites.iter().enumerate() {
         let tail = compile_site(genv, site);
         let kind = match site {
             Site::Match { var: Some(_), .. } => "match-var",
@@ -299,8 +428,13 @@ fn emit_program(out: &mut Out, id: &str, tast: &tast::File, genv: &GlobalTypeEnv
             Site::LetAlone { .. } => "let-alone",
         };
         *out.kinds.entry(format!("{}:{}", kind, tail.split('\t').next().unwrap_or(""))).or_default() += 1;
+        *out.kinds.entry(if written.is_some() { "aligned-with-source".to_string() } else { "not-aligned".to_string() }).or_default() += 1;
         out.sites += 1;
-        writeln!(out.text, "{}#{}\tSITE\t{}\t{}", id, k, site_sexp(site).to_text(), tail).unwrap();
+        let w = match written {
+            Some(ps) => tagged("written", ps.iter().map(crate::astdump::pat).collect()).to_text(),
+            None => "none".to_string(),
+        };
+        writeln!(out.text, "{}#{}\tSITE\t{}\t{}\t{}", id, k, site_sexp(site).to_text(), tail, w).unwrap();
     }
 }
 
@@ -333,9 +467,12 @@ enum CT {
     OptE2,
     Tup,
     S,
+    P,
+    OptP,
+    TupP,
 }
 
-const HEADER: &str = "struct S { a: bool, b: int8 }\nenum E2 { X, Y }\nenum E { A, B(bool), C(E2, bool) }\nenum Opt[T] { Non, Som(T) }\n";
+const HEADER: &str = "struct S { a: bool, b: int8 }\nstruct P { x: int8, y: int8 }\nenum E2 { X, Y }\nenum E { A, B(bool), C(E2, bool) }\nenum Opt[T] { Non, Som(T) }\n";
 
 fn ct_text(t: CT) -> &'static str {
     match t {
@@ -349,6 +486,9 @@ fn ct_text(t: CT) -> &'static str {
         CT::OptE2 => "Opt[E2]",
         CT::Tup => "(bool, int8)",
         CT::S => "S",
+        CT::P => "P",
+        CT::OptP => "Opt[P]",
+        CT::TupP => "(P, bool)",
     }
 }
 
@@ -403,6 +543,30 @@ fn pats(t: CT, d: usize) -> Vec<String> {
             for p in sub(CT::Bool) {
                 for q in sub(CT::I8) {
                     v.push(format!("S {{ a: {}, b: {} }}", p, q));
+                    // the same pattern with the fields written in the other order
+                    v.push(format!("S {{ b: {}, a: {} }}", q, p));
+                }
+            }
+        }
+        CT::P => {
+            // two fields of the SAME type: written in declaration order and reversed
+            for p in sub(CT::I8) {
+                for q in sub(CT::I8) {
+                    v.push(format!("P {{ x: {}, y: {} }}", p, q));
+                    v.push(format!("P {{ y: {}, x: {} }}", q, p));
+                }
+            }
+        }
+        CT::OptP => {
+            v.push("Non".into());
+            for p in sub(CT::P) {
+                v.push(format!("Som({})", p));
+            }
+        }
+        CT::TupP => {
+            for p in sub(CT::P) {
+                for q in sub(CT::Bool) {
+                    v.push(format!("({}, {})", p, q));
                 }
             }
         }
@@ -465,6 +629,9 @@ fn values(t: CT) -> Vec<&'static str> {
         CT::OptE2 => vec!["Non", "Som(X)", "Som(Y)"],
         CT::Tup => vec!["(true, 0i8)", "(false, 1i8)", "(true, 2i8)", "(false, 0i8)", "(true, 1i8)"],
         CT::S => vec!["S { a: true, b: 0i8 }", "S { a: false, b: 1i8 }", "S { a: true, b: 2i8 }", "S { a: false, b: 0i8 }", "S { a: true, b: 1i8 }"],
+        CT::P => vec!["P { x: 0i8, y: 1i8 }", "P { x: 1i8, y: 0i8 }", "P { x: 0i8, y: 0i8 }", "P { x: 2i8, y: 1i8 }", "P { x: 1i8, y: 2i8 }"],
+        CT::OptP => vec!["Non", "Som(P { x: 0i8, y: 1i8 })", "Som(P { x: 1i8, y: 0i8 })", "Som(P { x: 1i8, y: 1i8 })"],
+        CT::TupP => vec!["(P { x: 0i8, y: 1i8 }, true)", "(P { x: 1i8, y: 0i8 }, false)", "(P { x: 0i8, y: 0i8 }, true)", "(P { x: 1i8, y: 0i8 }, true)"],
     }
 }
 
@@ -543,7 +710,7 @@ struct Matrix {
     as_let: bool,
 }
 
-const COL_TYPES: [CT; 10] = [CT::Bool, CT::I8, CT::Str, CT::Unit, CT::E2, CT::OptB, CT::OptE2, CT::Tup, CT::S, CT::E];
+const COL_TYPES: [CT; 13] = [CT::Bool, CT::I8, CT::Str, CT::Unit, CT::E2, CT::OptB, CT::OptE2, CT::Tup, CT::S, CT::E, CT::P, CT::OptP, CT::TupP];
 
 /// every matrix with ≤ `max_rows` rows over one column of type `t` (depth ≤ 2), or a sample of `budget`
 fn one_col(t: CT, max_rows: usize, budget: usize, rng: &mut Rng, out: &mut Vec<Matrix>, stats: &mut BTreeMap<String, usize>) {
@@ -623,7 +790,7 @@ fn gen_small(args: &util::Args, out: &mut Out, stats: &mut BTreeMap<String, usiz
         let _ = std::fs::write(&path, &src);
         let id = format!("small:{}:{}", args.seed, bi);
         match typecheck(&path, &src) {
-            Ok((tast, genv)) => emit_program(out, &id, &tast, &genv, Some(&src)),
+            Ok((tast, genv)) => emit_program(out, &id, &tast, &genv, &src, true),
             Err(e) => writeln!(out.text, "{}\tREJECT\t{}\t{}", id, crate::sexp::esc_line(&e), crate::sexp::esc_line(&src)).unwrap(),
         }
     }
@@ -656,7 +823,7 @@ fn gen_small(args: &util::Args, out: &mut Out, stats: &mut BTreeMap<String, usiz
                 writeln!(pipe, "{}\tEXPECT\tnone\t", id).unwrap();
                 writeln!(pipe, "{}\tSRC\t{}", id, crate::sexp::esc_line(&src)).unwrap();
                 crate::c01::dump_case(&id, &c, &mut pipe);
-                emit_program(out, &id, &c.tast, &c.genv, Some(&src));
+                emit_program(out, &id, &c.tast, &c.genv, &src, true);
             }
             util::Outcome::Err(stage, msgs) => {
                 writeln!(pipe, "{}\tREJECT\t{}\t{}\t{}", id, stage, crate::sexp::esc_line(&msgs.join(" | ")), crate::sexp::esc_line(&src)).unwrap()
@@ -684,7 +851,7 @@ pub fn main(args: &util::Args) {
             let Ok(src) = std::fs::read_to_string(&path) else { continue };
             let id = format!("repo:{}", d.file_name().unwrap().to_string_lossy());
             match typecheck(&path, &src) {
-                Ok((tast, genv)) => emit_program(&mut out, &id, &tast, &genv, None),
+                Ok((tast, genv)) => emit_program(&mut out, &id, &tast, &genv, &src, false),
                 Err(e) => writeln!(out.text, "{}\tREJECT\t{}\t", id, crate::sexp::esc_line(&e)).unwrap(),
             }
         }
@@ -699,7 +866,7 @@ pub fn main(args: &util::Args) {
                 let path = dir.join("main.gom");
                 let _ = std::fs::write(&path, &src);
                 match typecheck(&path, &src) {
-                    Ok((tast, genv)) => emit_program(&mut out, &id, &tast, &genv, Some(&src)),
+                    Ok((tast, genv)) => emit_program(&mut out, &id, &tast, &genv, &src, true),
                     Err(e) => writeln!(out.text, "{}\tREJECT\t{}\t{}", id, crate::sexp::esc_line(&e), crate::sexp::esc_line(&src)).unwrap(),
                 }
             }
@@ -714,7 +881,7 @@ pub fn main(args: &util::Args) {
                 let path = dir.join("main.gom");
                 let _ = std::fs::write(&path, &src);
                 match typecheck(&path, &src) {
-                    Ok((tast, genv)) => emit_program(&mut out, "replay", &tast, &genv, Some(&src)),
+                    Ok((tast, genv)) => emit_program(&mut out, "replay", &tast, &genv, &src, true),
                     Err(e) => writeln!(out.text, "replay\tREJECT\t{}\t{}", crate::sexp::esc_line(&e), crate::sexp::esc_line(&src)).unwrap(),
                 }
                 let _ = std::fs::remove_dir_all(&dir);
@@ -741,6 +908,7 @@ pub fn main(args: &util::Args) {
                 effects: true,
                 wildcard_arrays: false,
                 nested_patterns: true,
+                src_forms: true,
                 ..Default::default()
             };
             let (src, feats) = crate::progen::gen_program(&mut rng, cfg);
@@ -751,7 +919,7 @@ pub fn main(args: &util::Args) {
                     for (k, v) in feats {
                         *feats_total.entry(k).or_default() += v;
                     }
-                    emit_program(&mut out, &id, &tast, &genv, Some(&src))
+                    emit_program(&mut out, &id, &tast, &genv, &src, true)
                 }
                 Err(e) => writeln!(out.text, "{}\tREJECT\t{}\t{}", id, crate::sexp::esc_line(&e), crate::sexp::esc_line(&src)).unwrap(),
             }
